@@ -1055,6 +1055,10 @@ fn main() {
                 dropscan(&repo, &args[i + 1..]);
                 return;
             }
+            "--fnscan" => {
+                fnscan(&repo, &args[i + 1..]);
+                return;
+            }
             "--unsafescan" => {
                 unsafescan(&repo, &args[i + 1..]);
                 return;
@@ -1691,6 +1695,46 @@ fn unsafescan(repo: &str, files: &[String]) {
         let src = SourceFile::load(repo, f);
         let mut v = V { src: &src, fns: vec![], pres: vec![], blocks: vec![], calls: vec![], closure_depth: 0, closure_call: vec![], let_closure: None };
         v.visit_file(&src.ast);
+    }
+}
+
+/// --fnscan file...: every function (free, inherent or trait-impl method; not inside cfg'd modules) with a fingerprint of its text
+/// (signature + body, comments and white space ignored): `file \t qualified name \t line \t fnv64 hex \t length`
+fn fnscan(repo: &str, files: &[String]) {
+    fn fnv(s: &str) -> u64 { let mut h: u64 = 0xcbf29ce484222325; for b in s.bytes() { h ^= b as u64; h = h.wrapping_mul(0x100000001b3); } h }
+    fn emit(src: &SourceFile, qual: &str, sig: &syn::Signature, whole: Span) {
+        let (s, e) = src.range(whole);
+        let t = norm_ws(&src.text[s..e]);
+        // attributes / doc comments in front of the fn are not part of the fingerprint
+        let t = match t.find(&format!("fn {}", sig.ident)) { Some(i) => t[i..].to_string(), None => t };
+        println!("{}\t{}\t{}\t{:016x}\t{}", src.rel, qual, src.line_of(s), fnv(&t), t.len());
+    }
+    fn walk(src: &SourceFile, items: &[syn::Item]) {
+        for it in items {
+            match it {
+                syn::Item::Fn(f) => emit(src, &f.sig.ident.to_string(), &f.sig, f.span()),
+                syn::Item::Impl(im) => {
+                    let ty = type_last_ident(&im.self_ty).unwrap_or_default();
+                    let tr = im.trait_.as_ref().and_then(|(_, p, _)| p.segments.last().map(|s| s.ident.to_string()));
+                    for ii in &im.items {
+                        if let syn::ImplItem::Fn(f) = ii {
+                            let q = match &tr { Some(t) => format!("{} for {}::{}", t, ty, f.sig.ident), None => format!("{}::{}", ty, f.sig.ident) };
+                            emit(src, &q, &f.sig, f.span());
+                        }
+                    }
+                }
+                syn::Item::Mod(m) => {
+                    if let Some((_, items)) = &m.content {
+                        if !m.attrs.iter().any(|a| a.path().is_ident("cfg")) { walk(src, items); }
+                    }
+                }
+                _ => {}
+            }
+        }
+    }
+    for f in files {
+        let src = SourceFile::load(repo, f);
+        walk(&src, &src.ast.items);
     }
 }
 
